@@ -61,7 +61,9 @@ type DraCounterDev struct {
 
 type DraShared struct {
 	Name string `json:"name"`
-	Cap  int64  `json:"cap"`
+	Cap  int64  `json:"cap"` // capacity in the dimension "mem"
+	// further consumable capacity dimensions of the device (e.g. bw, iops) and their capacity
+	Caps map[string]int64 `json:"caps,omitempty"`
 }
 
 // DraAlloc is the allocation an in-cluster claim already holds
@@ -69,18 +71,22 @@ type DraAlloc struct {
 	Driver string `json:"driver"`
 	Pool   string `json:"pool"`
 	Device string `json:"device"`
-	Cap    int64  `json:"cap,omitempty"` // consumed capacity on a multi-allocatable device
+	Cap    int64  `json:"cap,omitempty"` // consumed capacity (dimension "mem") on a multi-allocatable device
+	// consumed capacity in further dimensions; a claim may consume some dimensions only (Cap == 0)
+	Caps map[string]int64 `json:"caps,omitempty"`
 	// the pods the claim is reserved for (by name); NonPod: reserved for a consumer that is not a pod
 	Pods   []string `json:"pods"`
 	NonPod bool     `json:"nonPod,omitempty"`
 }
 
 type DraClaim struct {
-	Name  string    `json:"name"`
-	Class string    `json:"class"` // gpu | tmpl | shared | part | tpart | anypart (part or tpart)
-	Count int64     `json:"count"`
-	Cap   int64     `json:"cap,omitempty"`
-	Alloc *DraAlloc `json:"alloc,omitempty"`
+	Name  string `json:"name"`
+	Class string `json:"class"` // gpu | tmpl | shared | part | tpart | anypart (part or tpart)
+	Count int64  `json:"count"`
+	Cap   int64  `json:"cap,omitempty"`
+	// capacity requested in further dimensions of a multi-allocatable device
+	Caps  map[string]int64 `json:"caps,omitempty"`
+	Alloc *DraAlloc        `json:"alloc,omitempty"`
 }
 
 type Dra struct {
@@ -184,8 +190,11 @@ func (e *Env) applyDRA(d *Dra) error {
 		s := &resourcev1.ResourceSlice{ObjectMeta: meta("s-shared", nil), Spec: resourcev1.ResourceSliceSpec{Driver: drvShared,
 			Pool: resourcev1.ResourcePool{Name: "pool-b", Generation: 1, ResourceSliceCount: 1}, AllNodes: ptr(true)}}
 		for _, sd := range d.Shared {
-			s.Spec.Devices = append(s.Spec.Devices, resourcev1.Device{Name: sd.Name, AllowMultipleAllocations: ptr(true),
-				Capacity: map[resourcev1.QualifiedName]resourcev1.DeviceCapacity{capDim: {Value: qty(sd.Cap)}}})
+			caps := map[resourcev1.QualifiedName]resourcev1.DeviceCapacity{capDim: {Value: qty(sd.Cap)}}
+			for k, v := range sd.Caps {
+				caps[resourcev1.QualifiedName(k)] = resourcev1.DeviceCapacity{Value: qty(v)}
+			}
+			s.Spec.Devices = append(s.Spec.Devices, resourcev1.Device{Name: sd.Name, AllowMultipleAllocations: ptr(true), Capacity: caps})
 		}
 		if err := w.Client.Create(ctx, s); err != nil {
 			return err
@@ -248,15 +257,28 @@ func (e *Env) applyDRA(d *Dra) error {
 	for i, c := range d.Claims {
 		req := resourcev1.DeviceRequest{Name: "req", Exactly: &resourcev1.ExactDeviceRequest{DeviceClassName: c.Class, Count: max(c.Count, 1)}}
 		if c.Class == "shared" {
-			req.Exactly.Capacity = &resourcev1.CapacityRequirements{Requests: map[resourcev1.QualifiedName]resource.Quantity{capDim: qty(c.Cap)}}
+			reqs := map[resourcev1.QualifiedName]resource.Quantity{}
+			if c.Cap > 0 || len(c.Caps) == 0 {
+				reqs[capDim] = qty(c.Cap)
+			}
+			for k, v := range c.Caps {
+				reqs[resourcev1.QualifiedName(k)] = qty(v)
+			}
+			req.Exactly.Capacity = &resourcev1.CapacityRequirements{Requests: reqs}
 		}
 		rc := &resourcev1.ResourceClaim{ObjectMeta: metav1.ObjectMeta{Name: c.Name, Namespace: "default", UID: types.UID(fmt.Sprintf("rc-%d", i))},
 			Spec: resourcev1.ResourceClaimSpec{Devices: resourcev1.DeviceClaim{Requests: []resourcev1.DeviceRequest{req}}}}
 		if a := c.Alloc; a != nil {
 			res := resourcev1.DeviceRequestAllocationResult{Request: "req", Driver: a.Driver, Pool: a.Pool, Device: a.Device}
-			if a.Cap > 0 {
+			if a.Cap > 0 || len(a.Caps) > 0 {
 				res.ShareID = ptr(types.UID(fmt.Sprintf("share-%d", i)))
-				res.ConsumedCapacity = map[resourcev1.QualifiedName]resource.Quantity{capDim: qty(a.Cap)}
+				res.ConsumedCapacity = map[resourcev1.QualifiedName]resource.Quantity{}
+				if a.Cap > 0 {
+					res.ConsumedCapacity[capDim] = qty(a.Cap)
+				}
+				for k, v := range a.Caps {
+					res.ConsumedCapacity[resourcev1.QualifiedName(k)] = qty(v)
+				}
 			}
 			rc.Status.Allocation = &resourcev1.AllocationResult{Devices: resourcev1.DeviceAllocationResult{Results: []resourcev1.DeviceRequestAllocationResult{res}}}
 			for _, pn := range a.Pods {
@@ -339,8 +361,16 @@ func genDra(r *rand.Rand, s *world.Scenario) *Dra {
 	for i := 0; i < r.IntN(4); i++ {
 		d.Excl = append(d.Excl, fmt.Sprintf("gpu-%d", i))
 	}
-	if r.IntN(2) == 0 {
-		d.Shared = append(d.Shared, DraShared{Name: "mig-0", Cap: int64(2 + r.IntN(6))})
+	if r.IntN(3) != 0 {
+		sd := DraShared{Name: "mig-0", Cap: int64(2 + r.IntN(6))}
+		// most multi-allocatable devices have several consumable capacity dimensions
+		if r.IntN(4) != 0 {
+			sd.Caps = map[string]int64{"bw": int64(1 + r.IntN(4))}
+			if r.IntN(3) == 0 {
+				sd.Caps["iops"] = int64(1 + r.IntN(4))
+			}
+		}
+		d.Shared = append(d.Shared, sd)
 	}
 	for _, n := range s.Nodes {
 		if n.Stage != "claim" && r.IntN(3) == 0 {
@@ -350,9 +380,44 @@ func genDra(r *rand.Rand, s *world.Scenario) *Dra {
 	// bound pods that hold devices: exclusive in-cluster ones, a share of a multi-allocatable one, a partition of their
 	// node's device
 	freeExcl := append([]string{}, d.Excl...)
-	sharedLeft := map[string]int64{}
+	sharedLeft := map[string]int64{} // "<device>/<dimension>" -> capacity left
 	for _, sd := range d.Shared {
-		sharedLeft[sd.Name] = sd.Cap
+		sharedLeft[sd.Name+"/"+capDim] = sd.Cap
+		for k, v := range sd.Caps {
+			sharedLeft[sd.Name+"/"+k] = v
+		}
+	}
+	// a share of the device: a random non-empty subset of its dimensions that still have capacity (often a single one:
+	// the claim is then the only consumer of that dimension, or one of few)
+	takeShare := func(sd DraShared) (int64, map[string]int64, bool) {
+		dims := []string{capDim}
+		for _, k := range []string{"bw", "iops"} {
+			if _, ok := sd.Caps[k]; ok {
+				dims = append(dims, k)
+			}
+		}
+		var mem int64
+		caps := map[string]int64{}
+		for _, k := range dims {
+			left := sharedLeft[sd.Name+"/"+k]
+			if left <= 0 || r.IntN(2) == 0 {
+				continue
+			}
+			c := 1 + r.Int64N(left)
+			if r.IntN(3) == 0 {
+				c = left // uses the dimension up
+			}
+			sharedLeft[sd.Name+"/"+k] -= c
+			if k == capDim {
+				mem = c
+			} else {
+				caps[k] = c
+			}
+		}
+		if len(caps) == 0 {
+			caps = nil
+		}
+		return mem, caps, mem > 0 || caps != nil
 	}
 	newClaim := func(c DraClaim) string {
 		c.Name = fmt.Sprintf("rc-%d", len(d.Claims))
@@ -369,18 +434,24 @@ func genDra(r *rand.Rand, s *world.Scenario) *Dra {
 			if p.Daemon || r.IntN(2) == 0 {
 				continue
 			}
-			switch k := r.IntN(3); {
+			k := r.IntN(3)
+			if len(d.Shared) > 0 && r.IntN(3) != 0 {
+				k = 1 // worlds with a multi-allocatable device: most device holders hold a share of it
+			}
+			switch {
 			case k == 0 && len(freeExcl) > 0:
 				dev := freeExcl[0]
 				freeExcl = freeExcl[1:]
 				d.PodClaims[p.Name] = append(d.PodClaims[p.Name], newClaim(DraClaim{Class: "gpu", Count: 1,
 					Alloc: &DraAlloc{Driver: drvExcl, Pool: "pool-a", Device: dev, Pods: []string{p.Name}, NonPod: r.IntN(8) == 0}}))
-			case k == 1 && len(d.Shared) > 0 && sharedLeft[d.Shared[0].Name] > 0:
+			case k == 1 && len(d.Shared) > 0:
 				sd := d.Shared[0]
-				c := 1 + r.Int64N(sharedLeft[sd.Name])
-				sharedLeft[sd.Name] -= c
-				d.PodClaims[p.Name] = append(d.PodClaims[p.Name], newClaim(DraClaim{Class: "shared", Count: 1, Cap: c,
-					Alloc: &DraAlloc{Driver: drvShared, Pool: "pool-b", Device: sd.Name, Cap: c, Pods: []string{p.Name}}}))
+				mem, caps, ok := takeShare(sd)
+				if !ok {
+					continue
+				}
+				d.PodClaims[p.Name] = append(d.PodClaims[p.Name], newClaim(DraClaim{Class: "shared", Count: 1, Cap: mem, Caps: caps,
+					Alloc: &DraAlloc{Driver: drvShared, Pool: "pool-b", Device: sd.Name, Cap: mem, Caps: caps, Pods: []string{p.Name}}}))
 			case hasNP && nextPart < len(np.Parts) && usedSlots+np.Parts[nextPart].W <= np.Slots:
 				part := np.Parts[nextPart]
 				nextPart++
@@ -452,8 +523,14 @@ func draLabels(d *Dra) []string {
 		if c.Alloc != nil {
 			pre = true
 			nonPod = nonPod || c.Alloc.NonPod
-			if c.Alloc.Cap > 0 {
+			if c.Alloc.Cap > 0 || len(c.Alloc.Caps) > 0 {
 				l = append(l, "dra:bound-pod-holds-shared-capacity")
+			}
+			if len(c.Alloc.Caps) > 0 {
+				l = append(l, "dra:bound-pod-holds-capacity-in-further-dimensions")
+			}
+			if c.Alloc.Cap == 0 && len(c.Alloc.Caps) == 1 {
+				l = append(l, "dra:bound-pod-claim-consumes-a-single-dimension")
 			}
 		}
 	}
